@@ -276,6 +276,8 @@ impl Cqueue {
                         // before it decremented the count: consume what is left first, else
                         // that coroutine is never joined (its panic is lost and it may still
                         // be running when the cqueue is dropped)
+                        #[cfg(may_verif)]
+                        crate::verif::pt("cq.poll.lastpop", crate::verif::addr(self), 0, 0);
                         match self.ev_queue.pop() {
                             Some(mut ev) => run_ev!(ev),
                             None => return Err(PollError::Finished),
